@@ -299,6 +299,28 @@ func copyVal(v Val) Val {
 	return v
 }
 
+// storeInto writes v to *addr with Go's value semantics: structs and arrays
+// are overwritten in place (field/element addresses taken earlier stay valid).
+func storeInto(addr *Val, v Val) {
+	switch x := v.(type) {
+	case Struct:
+		if cur, ok := (*addr).(Struct); ok && len(cur) == len(x) {
+			for i := range x {
+				storeInto(&cur[i], x[i])
+			}
+			return
+		}
+	case Array:
+		if cur, ok := (*addr).(Array); ok && len(cur) == len(x) {
+			for i := range x {
+				storeInto(&cur[i], x[i])
+			}
+			return
+		}
+	}
+	*addr = copyVal(v)
+}
+
 func (in *Interp) zero(t types.Type) Val {
 	if z, ok := in.zeroCache[t]; ok {
 		return copyVal(z)
